@@ -50,9 +50,9 @@ func newFiles(dir string) *files {
 
 type runner struct {
 	nval, ntrav, nlabel int
-	rep *hv.Report
-	cf  *files
-	g   *gen
+	rep                 *hv.Report
+	cf                  *files
+	g                   *gen
 }
 
 func (x *runner) fail(vd verdict, input string, extra map[string]string) {
@@ -316,6 +316,12 @@ func (x *runner) labelCase(labels []string, viaNew bool) {
 	for _, l := range labels {
 		lt = append(lt, cps(l))
 		strFeatures(rep, l)
+		if evenRunBeforeBrace(l) {
+			rep.Hist("label:even-template-run-before-brace")
+		}
+		if !lexesToOneLiteral(l) {
+			rep.Hist("label:lexes-to-several-literals")
+		}
 	}
 	x.cf.label.Add(fmt.Sprintf("(%s, %s, (%s, %s, %s))", hv.CoqList(lt), hv.CoqZList(np), hexList(obs.fresh), hexList(obs.relexed), hexList(obs.syn)))
 	in := fmt.Sprintf("%q", labels)
